@@ -78,6 +78,14 @@ extern int vp_thread_mode;
 /* raw copies of the frames transmitted during the current request (for PIPE) */
 #define VP_MAX_TXS 2048
 typedef struct { uint8_t *b; size_t n; long item; } vp_txrec;
+typedef struct {
+    vif *cur; char *ob; size_t ob_len, ob_cap; long ob_items;
+    vp_txrec txs[VP_MAX_TXS]; int ntx;
+    long alloc_seq, send_seq; uint32_t fired, gfailed;
+} vp_saved;
+void vp_save(vp_saved *sv);
+void vp_restore(const vp_saved *sv);
+extern void (*vp_portcall_hook)(void);
 extern vp_txrec vp_txs[VP_MAX_TXS];
 extern int      vp_ntx;
 
